@@ -52,8 +52,11 @@ impl<'a, 'b> InterpStack<'a, 'b> {
                         // While the compiler is folding constants an unbound identifier is
                         // not a value the expression can absorb (match, ||, containers): the
                         // expression simply is not constant.
-                        if self.ctx.bindings.map_or(false, |b| b.is_compile_time()) {
-                            return Err(CelError::binding(&name));
+                        if let Some(bindings) = self.ctx.bindings {
+                            if bindings.is_compile_time() {
+                                bindings.mark_not_constant();
+                                return Err(CelError::binding(&name));
+                            }
                         }
 
                         Ok(CelValue::from_err(CelError::binding(&name)).into())
@@ -480,16 +483,21 @@ impl<'a> Interpreter<'a> {
                                         // has() and coalesce() are not offered while folding
                                         // constants; like an unbound identifier this is not an
                                         // error value the surrounding expression may absorb.
-                                        if self.bindings.map_or(false, |b| b.is_compile_time()) {
-                                            return Err(err);
+                                        if let Some(bindings) = self.bindings {
+                                            if bindings.is_compile_time() {
+                                                bindings.mark_not_constant();
+                                                return Err(err);
+                                            }
                                         }
 
                                         stack.push_val(CelValue::from_err(err));
                                     }
                                 }
                                 CelValue::Type(type_name) => {
-                                    let arg_values = self.resolve_args(args)?;
-                                    stack.push_val(construct_type(&type_name, arg_values));
+                                    stack.push_val(match self.resolve_args(args) {
+                                        Ok(arg_values) => construct_type(&type_name, arg_values),
+                                        Err(err) => CelValue::from_err(err),
+                                    });
                                 }
                                 other => stack.push_val(
                                     CelValue::from_err(CelError::runtime(&format!(
